@@ -314,28 +314,28 @@ Qed.
 
 (* ------------------------------------------------------------------ *)
 (* histories, with the non-perturbing observations of Check.v           *)
-Lemma RW_run : forall i ops s r, 1 <= i -> RW i s r -> forallb xx_in_scope ops = true ->
-  cwx_run s ops = refwx_run i r ops.
+Lemma RW_run : forall i ops s pend r, 1 <= i -> RW i s r -> forallb xx_in_scope ops = true ->
+  cwx_run s pend ops = refwx_run i r ops.
 Proof.
-  intros i ops. induction ops as [|o ops IH]; intros s r Hi HRW Hsc; [reflexivity|].
+  intros i ops. induction ops as [|o ops IH]; intros s pend r Hi HRW Hsc; [reflexivity|].
   cbn [forallb] in Hsc. apply andb_true_iff in Hsc. destruct Hsc as [Ho Hsc].
-  destruct o as [o| |].
+  destruct o as [o| | | |]; try (simpl in Ho; discriminate Ho).
   - cbn [cwx_run refwx_run].
     assert (Hpos : match o with XSet _ _ d | XTake _ _ d => 0 < d | _ => True end).
     { destruct o; simpl in Ho; try exact I; apply Z.ltb_lt; exact Ho. }
     rewrite (cwx_step_pos s o Hpos).
     destruct (RW_step i s r o Hi HRW) as [Hobs HRW'].
     destruct (refw_step i r o) as [r' ob]. cbn [fst snd] in *. rewrite Hobs.
-    rewrite (IH _ _ Hi HRW' Hsc). reflexivity.
+    rewrite (IH _ pend _ Hi HRW' Hsc). reflexivity.
   - cbn [cwx_run refwx_run]. destruct HRW as (HR & HRest). pose proof HR as (_ & Hd & _).
-    rewrite Hd, keys_proj. rewrite (IH s r Hi (conj HR HRest) Hsc). reflexivity.
+    rewrite Hd, keys_proj. rewrite (IH s pend r Hi (conj HR HRest) Hsc). reflexivity.
   - cbn [cwx_run refwx_run]. destruct HRW as (HR & HRest). pose proof HR as (_ & Hd & _).
-    unfold alen. rewrite Hd, map_length. rewrite (IH s r Hi (conj HR HRest) Hsc). reflexivity.
+    unfold alen. rewrite Hd, map_length. rewrite (IH s pend r Hi (conj HR HRest) Hsc). reflexivity.
 Qed.
 
 Theorem cachew_refines_stamp_reference_proof : forall limit n i ops, 1 <= n -> 1 <= i ->
   forallb xx_in_scope ops = true ->
-  cwx_run (cw_new limit n i false) ops = refwx_run i (mkRefW (s_new limit) []) ops.
+  cwx_run (cw_new limit n i false) [] ops = refwx_run i (mkRefW (s_new limit) []) ops.
 Proof.
   intros limit n i ops Hn Hi Hsc. apply RW_run; [exact Hi| |exact Hsc]. apply RW_new; assumption.
 Qed.
